@@ -7,9 +7,10 @@ import (
 )
 
 // C11: case forms (see coq/Extract/RunC11.v)
-//   (1 bytes)          parsePacket on one packet-sized buffer
-//   (2 packet target)  writePacket (any packet, any target size)
-//   (3 bytes)          parse, then re-emit with target 188
+//
+//	(1 bytes)          parsePacket on one packet-sized buffer
+//	(2 packet target)  writePacket (any packet, any target size)
+//	(3 bytes)          parse, then re-emit with target 188
 type c11 struct{}
 
 func init() { props["C11"] = c11{} }
@@ -310,6 +311,26 @@ func (c11) Gen(r *Rng, tier string, emit func(string, Tok)) {
 			emit("wf-reemit", L(I(3), B(ref)))
 		}
 	}
+	// K1: ISO-conformant packets whose adaptation field extension carries trailing reserved bytes (2.4.3.4 allows them):
+	// case (5 bytes n) = parse then re-emit, n reserved bytes
+	for k := 0; k < 6*scale; k++ {
+		nres := r.Range(1, 5)
+		p := &astits.Packet{Header: astits.PacketHeader{HasAdaptationField: true, HasPayload: true, PID: uint16(r.Bits(13)), ContinuityCounter: uint8(r.Intn(16))}}
+		e := &astits.PacketAdaptationExtensionField{HasPiecewiseRate: true, PiecewiseRate: uint32(r.Bits(22)), Length: 4}
+		af := &astits.PacketAdaptationField{HasAdaptationExtensionField: true, AdaptationExtensionField: e, RandomAccessIndicator: r.Bool()}
+		p.AdaptationField = af
+		p.Payload = r.Bytes(184 - afBytes(af) - nres)
+		b := refEncodePacket(p)
+		// move the payload nres bytes further, lengthen both lengths, fill the hole with reserved 0xFF
+		c := append([]byte{}, b[:4+afBytes(af)]...)
+		for j := 0; j < nres; j++ {
+			c = append(c, 0xff)
+		}
+		c = append(c, p.Payload...)
+		c[4] += byte(nres) // adaptation_field_length
+		c[6] += byte(nres) // adaptation_field_extension_length
+		emit("reemit-ext-reserved", L(I(5), B(c), I(int64(nres))))
+	}
 	// adaptation_field_length 0..183 with random flag bytes and bodies (arbitrary, mostly non-conformant)
 	for l := 0; l <= 183; l++ {
 		for k := 0; k < 2*scale; k++ {
@@ -415,7 +436,7 @@ func (c11) Run(c Tok) Tok {
 			_, err := astits.VerifWritePacket(s, &p, int(c.At(2).Int()))
 			return resOf(func() Tok { return B(s.accepted) }, err)
 		})
-	case 3:
+	case 3, 5:
 		return guard(func() Tok {
 			p, err := astits.VerifParsePacket(c.At(1).Bytes(), nil)
 			if err != nil {
@@ -496,6 +517,14 @@ func wfPacket(p *astits.Packet) bool {
 
 func (c11) Oracle(c Tok, obs Tok) string {
 	switch c.At(0).Int() {
+	case 5:
+		if obs.At(0).Int() != 0 {
+			return "parsePacket rejects a conformant packet with reserved bytes in the adaptation field extension"
+		}
+		w := obs.At(2)
+		if w.At(0).Int() != 0 || !eqBytes(w.At(1).Bytes(), c.At(1).Bytes()) {
+			return fmt.Sprintf("K1: a conformant packet whose adaptation field extension carries %d trailing reserved bytes is not re-emitted byte-identically (the bytes come back as adaptation field stuffing)", c.At(2).Int())
+		}
 	case 2:
 		var p astits.Packet
 		FromTok(c.At(1), &p)
